@@ -111,6 +111,7 @@ class Analyzer:
         self.symdeps = {}
         self.fp80src = {}
         self.symdef = {}
+        self.lowbits_canon = False
         self.mod = mod
         self.fn = IR.materialize(fn, mod)
         self.join_threshold = join_threshold
@@ -509,7 +510,9 @@ class Analyzer:
             if q0 == q1:
                 t = t.addc(-q0 * P)
                 return t, tlo - q0 * P, thi - q0 * P
-            raise Split([[("lin", t, q * P, q * P + P - 1)] for q in range(q0, q1 + 1)], "lowbits-carry")
+            if self.lowbits_canon:
+                raise Split([[("lin", t, q * P, q * P + P - 1)] for q in range(q0, q1 + 1)], "lowbits-carry")
+            # otherwise: a symbol of its own for this form (no case split, less sharing)
         s = self.pmint(st, T("lowbits", v.lin.key(), k), 0, P - 1, (v.lin,))
         # relational fact: v - lowbits = 2^k * floor(v / 2^k), and the quotient lies in [jlo, jhi]
         st.constrain(v.lin.sub(Lin.sym(s)), jlo * P, jhi * P)
